@@ -39,6 +39,10 @@ Conventions
   is NOT re-translated: it is `gen_N c` / `gen_D c` / `gen_kappa c` of Gen/GenPtCorr.v (gen_ptcorr.py translates exactly
   these right-hand sides, keyed by the same branch constant), evaluated at F K.  Each such read is guarded by the
   IndexError of the largest index the right-hand side reads.  These shapes are checked with the same `poly` helpers.
+* aliasing: arrays are values in the model, so every way of reaching one array under two names is rejected: `a = b` on
+  arrays / particle lists, element assignment to an argument, to a view (`X[:, j]`, `X[:, :n]`, `.T`) or to an array after
+  it was appended to / stored in self, storing in self inside a loop.  A method may not assign elements of its array
+  arguments.  The only objects changed in place are the particles (threaded back to the caller, see above).
 * external library: `Jackknife(a, b, c)` is the Section variable `jk_new` applied to the ORIGINAL argument values,
   `jk.compute_jackknife_estimates(arr, function=self.m, kw=e)` the Section variable `jk_estimate jk arr (fun a => gen_m self a e)`;
   `np.empty` is filled with the Section variable `junk`.
